@@ -26,7 +26,7 @@ REFUSE_CFGS = ["p", "z", "w-rc2", "w-z3", "lex-rc2", "lex-z3", "c"]
 
 
 def budget(tier):
-    return {"examples": 2000 if tier == "quick" else 16000,
+    return {"examples": 4000 if tier == "quick" else 24000,
             "soft_seconds": 200 if tier == "quick" else 2000}
 
 
